@@ -19,7 +19,7 @@ V.REG.register(G.VariableNode, ["name"])
 
 
 class FormatVariableName(Contract):
-    props = ("C14",)
+    props = ("C14", "C18", "C07")
     target = MOD + "GraphQLField._format_variable_name"
     mutates = ("used_names",)
     trusted = ["termination of the renaming loop is not proved (finite set, unbounded counter)"]
@@ -111,7 +111,7 @@ class FieldToAst(Contract):
       * one argument node per collected variable, in order: the GraphQL argument name bound to the unique variable name;
       * the field name node is _build_field_name(); a selection set exactly when there are sub-fields or inline fragments,
         built for the same index and the same name set."""
-    props = ("C14",)
+    props = ("C14", "C18", "C07")
     target = MOD + "GraphQLField.to_ast"
     frame_args = False
     use_at_calls = False
@@ -216,7 +216,7 @@ rendered_fragments = SpecMap("builder_rendered_fragments", _inline_fragment, par
 class BuildSelections(Contract):
     """every sub-field rendered, in order, then one inline fragment per type condition, in order, each holding its own
     sub-fields in order - all for the same index and the same name set (nothing is dropped when a field has both)"""
-    props = ("C14",)
+    props = ("C14", "C18", "C07")
     target = MOD + "GraphQLField._build_selections"
     frame_args = False
 
